@@ -11,15 +11,19 @@ PROP = {
         "GunYu.Props.C17.gc_newest_is_largest",
         "GunYu.Props.C17.consts_match_source",
     ],
-    # cmd/syncer.go is not run in-process: the closure `gcStaleCp` (log statements removed) and the
+    # cmd/syncer.go is not run in-process: the closure `gcStaleCp` (log statements removed), the control flow
+    # around it (c17_gc_frame: which nodes are asked for run ids, `return` when one cannot be reached - never
+    # `continue`, an unreachable source must not look dead -, which output clients gc runs on) and the
     # construction of the live-id set are compared with what the harness transliterates / the model assumes
     "expected_facts": {
         "c17_gcStaleCp": '{ data, err := checkpoint.GetAllCheckpointHash(cli) if err != nil { return } if len(data)%2 == 1 { return } for i := 0; i < len(data)-1; i += 2 { runId := data[i] cpn := data[i+1] _, exist := runIdMap[runId] total, deleted, err := checkpoint.DelStaleCheckpoint(cli, cpn, runId, config.GetSyncerConfig().Channel.StaleCheckpointDuration, exist) if err != nil { } if !exist && total == deleted { err = checkpoint.DelCheckpointHash(cli, runId) if err == nil { } else { } } } }',
+        "c17_gc_frame": ['inputs := config.GetSyncerConfig().Input.Redis.SelNodes(true, config.SelNodeStrategyMaster)', 'inputs = append(inputs, config.GetSyncerConfig().Input.Redis.SelNodes(true, config.SelNodeStrategySlave)...)', 'runIdMap := make(map[string]struct{}, len(inputs)*2)', 'for _, input := range inputs { input.Type = config.RedisTypeStandalone cli, err := client.NewRedis(input) if err != nil { return } id1, id2, err := redis.GetRunIds(cli) if err != nil { cli.Close() return } runIdMap[id1] = struct{}{} runIdMap[id2] = struct{}{} cli.Close() }', 'gcStaleCp := <closure>', 'if config.GetSyncerConfig().Output.Redis.Type == config.RedisTypeCluster { cli, err := client.NewRedis(*config.GetSyncerConfig().Output.Redis) if err != nil { return } gcStaleCp(cli) cli.Close() } else if config.GetSyncerConfig().Output.Redis.Type == config.RedisTypeStandalone { outputs := config.GetSyncerConfig().Output.Redis.SelNodes(true, config.SelNodeStrategyMaster) for _, out := range outputs { cli, err := client.NewRedis(out) if err != nil { return } gcStaleCp(cli) cli.Close() } }'],
         "c17_gc_live_ids": ['runIdMap[id1] = struct{}{}', 'runIdMap[id2] = struct{}{}'],
     },
     "harness": [
         {"name": "C17", "pkg": "./pkg/redis/checkpoint/", "test": "TestVerifC17"},
         {"name": "C17m", "pkg": "./syncer/", "test": "TestVerifC17Migrate"},
+        {"name": "C17gs", "pkg": "./syncer/", "test": "TestVerifC17GcSender"},
     ],
     "driver": "drv_C17",
     "rule": "c17u (UpdateCheckpoint): corpus (D13 witnesses); generated bookkeeping states on the target double: nothing stored / rename / "
